@@ -70,7 +70,7 @@ def run(ctx) -> None:
     P = ctx.P
     RP = ctx.rule("C08/placed-exactly-once", "on every path of the grouping loop the current record is placed in the output exactly once: alone, or as second half of a pair whose first half is replaced in place at its index or pulled out of the delay queue", floor=4)
     RQ = ctx.rule("C08/put-exactly-once", "every grouped element reaches exactly one put on the delay queue, except watch-removed markers; the delay flag is true exactly for a non-tuple MOVED_FROM", floor=4)
-    RM = ctx.rule("C08/partner-predicate", "the partner predicate (both searches) requires a non-tuple, MOVED_FROM and cookie equality with the current record", floor=2)
+    RM = ctx.rule("C08/partner-predicate", "the predicate handed to the queue search accepts exactly a non-tuple MOVED_FROM whose cookie equals the current record's (the in-batch search is decided per path under placed-exactly-once)", floor=1)
     RV = ctx.rule("C08/partner-removal-is-final", "an element pulled out of the delay queue by remove() is never also returned by get(): get() re-validates the head by identity under the lock before popping; remove() deletes under the lock (instances shared with C17)", floor=2)
     RO = ctx.rule("C08/order", "grouping and hand-over iterate their inputs in order and append at the end", floor=2)
 
@@ -146,40 +146,75 @@ def run(ctx) -> None:
                 ok, msg = False, "a partner is pulled out of the delay queue but not placed (lost)"
         ctx.check(ok, RP, f"_group_events {desc}", msg, loc)
         ctx.sample({"path": p.sig()[:100], "placement": [(h, render(t) if t is not None else None) for h, t, _ in placements]})
-        # collect predicate terms (inlined closure returns) and the predicate handed to remove()
-        for e in p.flat():
-            if e.kind == "return" and e.fn.endswith(".matching_from_event"):
-                pred_terms.append(e.extra.get("term"))
-        for r in removes:
-            a = (r.extra.get("args") or [""])[0]
-            closures = [n.name for n in ast.walk(gf.node) if isinstance(n, ast.FunctionDef) and n is not gf.node]
-            ctx.check(a in closures, RM, "remove() receives the partner predicate", f"self._queue.remove({a}) is not given the partner predicate closure", f"{gf.module.relpath}:{r.line}")
-    # partner predicate truth table
-    if not pred_terms:
-        raise AnalysisError("anchor vanished: partner predicate closure in _group_events")
-    seen_pred = set()
-    for t in pred_terms:
-        if t is None:
+    # ---------------------------------------------------------------- the predicate handed to the queue search
+    # Whatever callable remove() receives -- a closure of _group_events, a lambda, possibly delegating to a helper method -- is
+    # enumerated as a function of its own (helpers inlined, `return E` branched on E) and decided as a truth table over the
+    # three atoms; the cookie it compares with must be the current record's.
+    from ..flow import origins
+    from ..model import FuncInfo, boolified
+
+    rec_names = {n.target.id for n in ast.walk(gf.node) if isinstance(n, ast.For) and isinstance(n.target, ast.Name) and ast.unparse(n.iter) == IN}
+    rec_cookie = {f"{r}.cookie" for r in rec_names}
+
+    def is_rec_cookie(txt: str) -> bool:
+        if txt in rec_cookie:
+            return True
+        if txt.isidentifier():
+            return all(b in rec_cookie and not w for b, w in origins(gf.node, ast.Name(txt, ast.Load())))
+        return False
+
+    closures = {n.name: n for n in ast.walk(gf.node) if isinstance(n, ast.FunctionDef) and n is not gf.node}
+    rcalls = [n for n in ast.walk(gf.node) if isinstance(n, ast.Call) and ast.unparse(n.func) == "self._queue.remove"]
+    if not rcalls:
+        raise AnalysisError("anchor vanished: self._queue.remove(...) in _group_events")
+    npred = 0
+    for rc in rcalls:
+        arg = rc.args[0] if rc.args else None
+        node = None
+        if isinstance(arg, ast.Name) and arg.id in closures:
+            node = closures[arg.id]
+        elif isinstance(arg, ast.Lambda):
+            node = ast.FunctionDef(name="_partner_predicate", args=arg.args, body=[ast.Return(arg.body)], decorator_list=[], returns=None, type_comment=None, type_params=[])
+            ast.copy_location(node, arg)
+            ast.fix_missing_locations(node)
+        where = f"{gf.module.relpath}:{rc.lineno}"
+        if node is None:
+            ctx.viol(RM, "remove() receives the partner predicate", f"self._queue.remove({ast.unparse(arg) if arg is not None else ''}) is not given a closure of _group_events or a lambda: what it searches for is not decidable here", where)
             continue
-        key = render(t)
-        if key in seen_pred:
+        npred += 1
+        params = [a.arg for a in node.args.args]
+        if len(params) != 1:
+            ctx.viol(RM, "partner predicate takes the queued element", f"predicate takes {params}", where)
             continue
-        seen_pred.add(key)
-        ats = sorted(set(atoms_of(t)))
-        tup = [a for a in ats if a.startswith("isinstance(") and a.endswith(", tuple)")]
-        mf = [a for a in ats if a.endswith(".is_moved_from")]
-        ck = [a for a in ats if ".cookie" in a and "==" in a and "REC.cookie" in a]
-        ok = len(tup) == 1 and len(mf) == 1 and len(ck) == 1 and len(ats) == 3
-        if ok:
-            for vals in itertools.product([False, True], repeat=3):
-                env = {tup[0]: vals[0], mf[0]: vals[1], ck[0]: vals[2]}
-                want = (not vals[0]) and vals[1] and vals[2]
-                try:
-                    if eval_bool(t, env) != want:
-                        ok = False
-                except KeyError:
-                    ok = False
-        ctx.check(ok, RM, f"partner predicate `{key[:90]}`", "the predicate is not (non-tuple ∧ is_moved_from ∧ cookie == current record's cookie): unrelated events could be paired, or a pair re-paired", gf.loc, {"atoms": ats})
+        q = params[0]
+        fi_ = boolified(FuncInfo(node.name, f"{gf.qualname}.<locals>.{node.name}", node, gf.module, None))
+        ok, why, ntrue = True, "", 0
+        for p in Enumerator(ThreadCfg(P, follow_attrs=False)).run(fi_, selfcls="InotifyBuffer"):
+            if p.outcome[0] != "return" or not isinstance(p.outcome[1], ast.Constant):
+                ok, why = False, f"does not return a truth value on [{p.sig()[:60]}]"
+                continue
+            c = p.conds()
+            tup = c.get(f"isinstance({q}, tuple)")
+            mf = c.get(f"{q}.is_moved_from")
+            ck, other = None, None
+            for a, v in c.items():
+                m = re.fullmatch(rf"{re.escape(q)}\.cookie == (.+)|(.+) == {re.escape(q)}\.cookie", a)
+                if m:
+                    ck, other = v, (m.group(1) or m.group(2))
+            extra = [a for a in c if a not in (f"isinstance({q}, tuple)", f"{q}.is_moved_from") and not (other and other in a and ".cookie" in a)]
+            res = bool(p.outcome[1].value)
+            if res:
+                ntrue += 1
+                if not (tup is False and mf is True and ck is True and is_rec_cookie(other or "")):
+                    ok, why = False, f"accepts an element with tuple={tup}, is_moved_from={mf}, cookie-equal={ck} (compared with `{other}`)"
+            else:
+                if not (tup is True or mf is False or ck is False or any(c.get(a) is not None for a in extra)):
+                    ok, why = False, "rejects an element although it is a non-tuple MOVED_FROM with the record's cookie"
+                if tup is False and mf is True and ck is True:
+                    ok, why = False, "rejects the partner itself"
+        ctx.check(ok and ntrue >= 1, RM, f"partner predicate handed to remove() `{ast.unparse(arg)[:60]}`", why or "the predicate never accepts anything", where)
+    if npred == 0 and not any((not i.ok) and i.rule == RM for i in ctx.instances):
+        raise AnalysisError("anchor vanished: partner predicate handed to DelayedQueue.remove")
 
     # ---------------------------------------------------------------- hand-over loop
     rpaths = Enumerator(cfg).run(rf, selfcls="InotifyBuffer")
@@ -276,6 +311,8 @@ VARIANTS = [
     dict(name="B unmatched MOVED_TO dropped", expect="fire", rule="C08/placed-exactly-once", edits=[(IB, "                        logger.debug(\"could not find matching move_from event\")\n                        grouped.append(inotify_event)", "                        logger.debug(\"could not find matching move_from event\")")]),
     dict(name="B delay everything", expect="fire", rule="C08/put-exactly-once", edits=[(IB, "self._queue.put(inotify_event, delay=delay)", "self._queue.put(inotify_event, delay=True)")]),
     dict(name="B delay nothing", expect="fire", rule="C08/put-exactly-once", edits=[(IB, "self._queue.put(inotify_event, delay=delay)", "self._queue.put(inotify_event)")]),
+    dict(name="E partner predicate as a static helper, queue search through a lambda", expect="silent", edits=[(IB, "            def matching_from_event(event: InotifyEvent | tuple[InotifyEvent, InotifyEvent]) -> bool:\n                return not isinstance(event, tuple) and event.is_moved_from and event.cookie == inotify_event.cookie\n\n", ""), (IB, "                    if matching_from_event(event):", "                    if self._is_from_half(event, inotify_event.cookie):"), (IB, "from_event = self._queue.remove(matching_from_event)", "cookie = inotify_event.cookie\n                    from_event = self._queue.remove(lambda queued: self._is_from_half(queued, cookie))"), (IB, "    def _group_events(self, event_list", "    @staticmethod\n    def _is_from_half(event, cookie) -> bool:\n        return not isinstance(event, tuple) and event.is_moved_from and event.cookie == cookie\n\n    def _group_events(self, event_list")]),
+    dict(name="B queue search through a lambda that forgets the cookie", expect="fire", rule="C08/partner-predicate", edits=[(IB, "from_event = self._queue.remove(matching_from_event)", "from_event = self._queue.remove(lambda queued: not isinstance(queued, tuple) and queued.is_moved_from)")]),
     dict(name="B partner predicate without cookie", expect="fire", rule="C08/partner-predicate", edits=[(IB, "return not isinstance(event, tuple) and event.is_moved_from and event.cookie == inotify_event.cookie", "return not isinstance(event, tuple) and event.is_moved_from")]),
     dict(name="B partner predicate accepts tuples", expect="fire", rule="C08/partner-predicate", edits=[(IB, "return not isinstance(event, tuple) and event.is_moved_from and event.cookie == inotify_event.cookie", "return getattr(event, 'is_moved_from', False) and event.cookie == inotify_event.cookie")]),
     dict(name="B pairs with the first non-matching element", expect="fire", rule="C08/placed-exactly-once", edits=[(IB, "                    if matching_from_event(event):\n                        grouped[index]", "                    if not matching_from_event(event):\n                        grouped[index]")]),
